@@ -39,6 +39,8 @@ def q(name, cap, ts, extra_defs=(), nr=3, **kw):
 
 q('spsc_cap2', 2, ['PUSH(0);PUSH(1)', 'POP();POP()'])
 q('spsc_cap1_wrap', 1, ['PUSH(0);PUSH(1);PUSH(2)', 'POP();POP();POP()'])
+# the 16-bit slot version at its largest value (65535 = full in round 32767): the next pusher must still register as a waiter
+q('version_65535_cap1', 1, ['PUSH(0);PUSH(1)', 'POP();POP()'], extra_defs=['VF_QINIT=q->_next_push_index.store(32767); q->_next_pop_index.store(32767); q->_slots.futex(0)._futex.value().store(65534)'])
 q('mpmc_cap1', 1, ['PUSH(0)', 'PUSH(0)', 'POP()', 'POP()'], models={'quick': ['sc', 'arm'], 'thorough': ['sc', 'tso', 'arm']})
 q('cb_cap2', 2, ['PUSHCB(0);PUSHCB(1)', 'POPCB();POPCB()'])
 q('pushn_cap2', 2, ['PUSHN(0,2)', 'POP();POP()'])
@@ -65,6 +67,7 @@ def ep(name, ts, nacc=1, extra=(), **kw):
     S('ep_' + name, 'epoch/ep.cpp', {'assert': 'C09'}, defs=['VF_NACC=%d' % nacc] + ['VF_T%d=%s' % (i, t) for i, t in enumerate(ts)] + list(extra), models=kw.pop('models', M3), **kw)
 ep('reader_writer', ['READER(0)', 'WRITER()'])
 ep('nested', ['READER_NESTED(0)', 'WRITER()'])
+ep('nested_hold', ['READER_NESTED_HOLD(0)', 'WRITER()'])
 ep('two_readers', ['READER(0)', 'READER(1)', 'WRITER()'], nacc=2)
 ep('second_slot', ['READER(1)', 'WRITER()'], nacc=2)
 ep('handoff', ['acc[0].lock();SIGNAL(0)', 'AWAIT(0);USE();acc[0].unlock()', 'WRITER()'])
@@ -229,6 +232,7 @@ cpa('alloc_free_x2', ['ALLOC1(0);FREE1(0)', 'ALLOC1(0);FREE1(0)'])
 cpa('cache_full_race', ['ALLOC1(0);ALLOC1(1);FREE1(0);FREE1(1)', 'ALLOC1(0);FREE1(0)'], tiers=TH, qcap=1500, timeout=7200)
 cpa('batch', ['ALLOC2(0);FREE2(0)', 'ALLOC1(0);FREE1(0)'], cap=2, tiers=TH, qcap=1500, timeout=7200)
 cpa('keep_one', ['ALLOC1(0);ALLOC1(1);FREE1(0)', 'ALLOC1(0);FREE1(0)'], cap=2, tiers=TH, qcap=1500, timeout=7200)
+S('pa_seq_batch_wraps_ring', 'pagealloc/cpa_seq.cpp', {'assert': 'C17'}, extra=PAX, models=['sc'], bound=16)
 cpa('one_thread_cycle', ['ALLOC1(0);FREE1(0);ALLOC1(1);FREE1(1)'], cap=1)
 
 # ----------------------------------------------------------------------------------------------- C06: monotonic resources (sequential)
@@ -314,7 +318,8 @@ for _s in ALL:
 NOT_FINISHING = set(['vec_overlap_grow', 'vec_bs2_same_block', 'pa_batch', 'pa_cache_full_race', 'pa_keep_one', 'tp_two_consumers', 'tp_two_consumers_one_item',
                      'eq_refused_1x1', 'eq_refused_twice_then_recover', 'eq_refused_seq', 'eq_inline_two_producers', 'eq_parked_consumer', 'eq_refused_race',
                      'ap_two_writers', 'ap_one_writer', 'ap_empty_entry', 'gc_stop_with_open_region', 'gc_retire_then_stop', 'gc_never_early',
-                     'ser_roundtrip_all', 'ser_hostile_len6_all', 'q_nonconc_producer'])
+                     'ser_roundtrip_all', 'ser_hostile_len6_all', 'q_nonconc_producer',
+                     'ser_nested_len_boundary_field20'])     # field20: engine/protobuf-model execution not reproduced natively (2-byte tags inside a length limit): unconfirmed => not registered
 ALL[:] = [_s for _s in ALL if _s['name'] not in NOT_FINISHING]
 
 # ----------------------------------------------------------------------------------------------- manifest texts
